@@ -139,7 +139,7 @@ func Harness_C20_ReorderBuffer() {
 // interleaving at synchronisation points is explored. The output channel must carry one
 // result per input, in input order.
 func Harness_C20_ReorderFetcher() {
-	verif.ExploreSchedules(true, verif.Param("PREEMPT", 2))
+	verif.ScheduleMode(verif.Param("MODE", 1), verif.Param("PREEMPT", -1))
 	ctx, cancel := context.WithCancel(context.Background())
 	defer cancel()
 	timer := &verifTimer{}
@@ -175,6 +175,7 @@ func Harness_C20_ReorderFetcher() {
 			cb := timer.do
 			timer.do = nil
 			go cb()
+			verif.Yield() // the time-out flusher may run now or later
 		}
 	}
 	rf.Flush(ctx)
